@@ -494,6 +494,40 @@ func runC08(c C08Case) *Outcome {
 			}
 			model = newModel
 			beh = append(beh, "S")
+			// "the database used for searching is exactly the main entries followed by the notebook entries": every search
+			// command must answer as it does when the same entries stand in ONE file (the main file's text followed by
+			// the notebook's text, both block sequences the tool or the harness wrote) and there is no notebook
+			if st.Target%3 == 0 && len(c.Main) > 0 {
+				words := searchableWords(want.Description, want.Command, strings.Join(want.Keywords, " "))
+				if len(words) > 2 {
+					words = words[:2]
+				}
+				nbBytes, _ := w.disk.ReadRaw(pNotebook)
+				if len(words) > 0 && len(nbBytes) > 0 && nbBytes[0] == '-' {
+					one := &pworld{disk: w.disk.Clone(), clockNS: w.clockNS, sched: w.sched}
+					mainBytes, _ := one.disk.ReadRaw(pMainDB)
+					one.disk.RemoveRaw(pNotebook)
+					one.disk.RemoveRaw(one.disk.ResolveRaw(pNotebook))
+					one.disk.WriteRaw(pMainDB, append(append(append([]byte(nil), mainBytes...), '\n'), nbBytes...), 0o644)
+					for _, sub := range [][]string{{"pipeline", "-d", pMainDB, "--limit", "50"}, {"search", "--all-platforms", "-d", pMainDB, "--limit", "50", "--format", "json"}} {
+						a := append(append([]string(nil), sub...), words...)
+						two, e1 := w.probe(argsOf(a...), nil, "s")
+						single, e2 := one.probe(argsOf(a...), nil, "s")
+						if e1 != nil || e2 != nil {
+							o.Harness = fmt.Sprint(e1, e2)
+							return o
+						}
+						if two.Exit != "exit" || single.Exit != "exit" {
+							continue // crashes are C17's subject
+						}
+						if string(two.Stdout) != string(single.Stdout) {
+							log = append(log, quoteArgs(argsOf(a...)))
+							return fail("not-main-plus-notebook:"+sub[0], "step %d: `wtf %s` over main file + notebook prints something else than over one file holding the same entries in the same order:\n   two files: %q\n   one file:  %q", i, strings.Join(a, " "), tailStr(string(two.Stdout), 400), tailStr(string(single.Stdout), 400))
+						}
+						o.Probes["c08.one_file_equivalence_checked"]++
+					}
+				}
+			}
 		case "search":
 			if len(model) == 0 {
 				continue
